@@ -336,4 +336,399 @@ theorem C15_gen_run_for_eq_model (f : Nat) (s : Sim) (d : Int) :
   rw [h]
   exact ⟨by simp [interpRunUntil, runFor], rfl⟩
 
+/-! ### `Simulator.run_next_event` (try / except IndexError / else around the translated `pop_event`) -/
+
+/-- more fuel than events changes nothing at the heap level either -/
+theorem heapPopLive_fuel (f : Nat) (hp : List Ev) (hf : hp.length < f) :
+    heapPopLive f hp = heapPopLive (hp.length + 1) hp := by
+  induction f generalizing hp with
+  | zero => omega
+  | succ f ih =>
+    unfold heapPopLive
+    cases hq : heappop Ev.lt hp with
+    | none => rfl
+    | some r =>
+      obtain ⟨e, hp'⟩ := r
+      have hlen := (heappop_perm Ev.lt hq).length_eq
+      simp only [List.length_cons] at hlen
+      cases hc : e.cancelled
+      · simp [hc]
+      · simp only [hc, if_true]
+        rw [hlen]
+        exact ih hp' (by omega)
+
+/-- the generated `pop_event` with adequate fuel, as a case distinction on the heap-level model -/
+theorem gen_pop_event_cases (fuel : Nat) (hp : List Ev) (hf : hp.length < fuel) :
+    match heapPopLive (hp.length + 1) hp with
+    | some (e, hp') => GenFn.pop_event ⟨hp⟩ fuel = (.ok e, hp')
+    | none => GenFn.pop_event ⟨hp⟩ fuel = (.error Py.Err.Index, []) := by
+  have hA := C14_gen_pop_event_fuel_adequate fuel hp hf
+  obtain ⟨h1, h2⟩ := C14_gen_pop_event_eq_model fuel hp
+  have h1 := h1 hA
+  rw [heapPopLive_fuel fuel hp hf] at h1
+  revert hA h1 h2
+  generalize GenFn.pop_event ⟨hp⟩ fuel = r
+  obtain ⟨v, st⟩ := r
+  intro hA h2 h1
+  cases v with
+  | ok e =>
+    simp only [popConv, Option.some.injEq] at h1
+    rw [← h1]
+  | error err =>
+    cases err <;> simp [popConv] at h1 hA
+    rw [← h1]
+    simp at h2
+    simp [h2]
+
+/-- what the outputs of the generated `run_next_event` mean IN THE MODEL: the recorded `event.execute()` calls are the model's
+    `exec`, on the state whose clock / event list are the ones the generated text computed -/
+def interpExec (es : List Ev) (s : Sim) : Sim := es.foldl exec s
+
+/-- **`Simulator.run_next_event` as generated = the model's `runNext`** under the guard of the code (`self.model is not None`),
+    for every heap array `hp` that holds the model's sorted pending list (the inner `pop_event` runs with its own measure,
+    the number of events + 1, as fuel): no
+    exception; the array left behind holds what the model leaves pending; and the model's `runNext` is the recorded
+    `event.execute()` (none on a list without live events — the `except IndexError: return` path) run by the model's `exec` on
+    the state with the clock the generated text computed. -/
+theorem C14_gen_run_next_event_eq_model (s : Sim) (hp : List Ev) (m : Int) (r : Refines hp s.pending) :
+    (GenFn.run_next_event ⟨s.now, some m, ⟨hp⟩⟩).1 = .ok () ∧
+    Refines (GenFn.run_next_event ⟨s.now, some m, ⟨hp⟩⟩).2.2.2 ((popLive s.pending).elim [] (·.2)) ∧
+    runNext s = interpExec (GenFn.run_next_event ⟨s.now, some m, ⟨hp⟩⟩).2.1
+      { s with now := (GenFn.run_next_event ⟨s.now, some m, ⟨hp⟩⟩).2.2.1,
+               pending := (popLive s.pending).elim [] (·.2),
+               gone := s.gone ++ (skipped s.pending).map (·.id) } := by
+  have hc := gen_pop_event_cases (hp.length + 1) hp (by omega)
+  have hr := refines_popLive r
+  rw [← r.perm.length_eq] at hr
+  cases hpl : popLive s.pending with
+  | none =>
+    simp only [hpl] at hr
+    rw [hr] at hc
+    simp only at hc
+    simp [GenFn.run_next_event, hc, runNext, hpl, interpExec, refines_nil]
+  | some p =>
+    obtain ⟨e, rest⟩ := p
+    simp only [hpl] at hr
+    obtain ⟨hp', hq, r'⟩ := hr
+    rw [hq] at hc
+    simp only at hc
+    simp [GenFn.run_next_event, hc, runNext, hpl, interpExec, r']
+
+/-- the guard: without a model (`self.model is None`) `run_next_event` raises `Exception` and touches nothing -/
+theorem C14_gen_run_next_event_guard (t : Int) (hp : List Ev) :
+    GenFn.run_next_event ⟨t, none, ⟨hp⟩⟩ = (.error Py.Err.Exception, [], t, hp) := by
+  simp [GenFn.run_next_event]
+
+/-- C14's ordering clause for one `run_next_event`, about the code-derived text: on a heap w.r.t. the code's `__lt__`, with a
+    model set up, `run_next_event` never raises; it executes exactly one event — a live one, no event left in the list is
+    smaller in the (time, priority, id) order, the clock is its time — or, when every event is cancelled, executes nothing
+    and leaves the clock alone. -/
+theorem C14_run_next_event_generated (t m : Int) (hp : List Ev) (h : IsHeap GenFn.lt hp) :
+    (GenFn.run_next_event ⟨t, some m, ⟨hp⟩⟩).1 = .ok () ∧
+    (((∀ e ∈ hp, e.cancelled = true) ∧ (GenFn.run_next_event ⟨t, some m, ⟨hp⟩⟩).2 = ([], t, [])) ∨
+     ∃ e, (GenFn.run_next_event ⟨t, some m, ⟨hp⟩⟩).2.1 = [e] ∧ (GenFn.run_next_event ⟨t, some m, ⟨hp⟩⟩).2.2.1 = e.time ∧
+       e.cancelled = false ∧ e ∈ hp ∧ ∀ y ∈ (GenFn.run_next_event ⟨t, some m, ⟨hp⟩⟩).2.2.2, GenFn.lt y e = false) := by
+  have hc := gen_pop_event_cases (hp.length + 1) hp (by omega)
+  cases hpl : heapPopLive (hp.length + 1) hp with
+  | none =>
+    rw [hpl] at hc
+    simp only at hc
+    have hi := (C14_pop_event_index_iff_generated (hp.length + 1) hp (by omega)).mp (by rw [hc])
+    simp [GenFn.run_next_event, hc]
+    exact hi
+  | some p =>
+    obtain ⟨e, hp'⟩ := p
+    rw [hpl] at hc
+    simp only at hc
+    obtain ⟨a, b, _, d⟩ := C14_pop_event_generated (hp.length + 1) hp hp' e h hc
+    refine ⟨by simp [GenFn.run_next_event, hc], Or.inr ⟨e, ?_⟩⟩
+    simp [GenFn.run_next_event, hc, a, b]
+    exact d
+
+/-! ### `Simulator.run_until`: `while True` with fuel, `try: pop_event() except IndexError: …; break`, and `event.execute()`
+as a callback PARAMETER `exec_` acting on (clock, heap array, world) — the world `ω` is everything else a callable touches -/
+
+/-- one iteration of the generated `while True`, whatever its textual shape: `pop_event` (heap level); nothing live →
+    clock := end, stop; a due event → clock := its time, the callback runs on the state after the pop, an exception of
+    the callback ends the run with the state it left; a later event → clock := end, the event is pushed back, stop -/
+theorem gen_run_until_while_succ (F : Nat) (self : GenFn.SimRun) (T : Int) (ω : Type)
+    (ex : (Int × List Ev × ω) → Ev → (Except Py.Err Unit × (Int × List Ev × ω))) (w : ω) (t : Int) (hp : List Ev) :
+    GenFn.run_until.while1 (F + 1) self T ω ex w t hp =
+      match heapPopLive (hp.length + 1) hp with
+      | none => (.ok (), T, [], w)
+      | some (e, hp') =>
+        if e.time ≤ T then
+          match ex (e.time, hp', w) e with
+          | (.ok _, st) => GenFn.run_until.while1 F self T ω ex st.2.2 st.1 st.2.1
+          | (.error err, st) => (.error err, st)
+        else (.ok (), T, heappush Ev.lt hp' e, w) := by
+  have hc := gen_pop_event_cases (hp.length + 1) hp (by omega)
+  conv => lhs; unfold GenFn.run_until.while1
+  cases hpl : heapPopLive (hp.length + 1) hp with
+  | none =>
+    rw [hpl] at hc
+    simp only at hc
+    simp [hc]
+  | some p =>
+    obtain ⟨e, hp'⟩ := p
+    rw [hpl] at hc
+    simp only at hc
+    show _ = (if e.time ≤ T then _ else _)
+    by_cases hT : e.time ≤ T
+    · have hT' : ¬ (T < e.time) := by omega
+      rw [if_pos hT]
+      generalize hres : ex (e.time, hp', w) e = res
+      obtain ⟨v, a, b, c⟩ := res
+      cases v <;> simp [hc, hT, hT', hres]
+    · have hT' : T < e.time := by omega
+      rw [if_neg hT]
+      simp [hc, hT, hT', C14_gen_add_event_eq_model]
+
+/-- what the callback parameter has to be for the generated loop to be the model's loop: `A w s` says that the world `w`
+    stands for the part of the model state `s` the simulator itself does not write (it does not look at the clock, the
+    pending list and the ghost `gone`); on corresponding states the callback does what the model's `exec` does — same
+    clock, a heap array holding the model's new pending list, corresponding world — and fails iff `exec` raises. -/
+structure ExecSim {ω : Type} (A : ω → Sim → Prop)
+    (ex : (Int × List Ev × ω) → Ev → (Except Py.Err Unit × (Int × List Ev × ω))) : Prop where
+  frame : ∀ w s t p g, A w s → A w { s with now := t, pending := p, gone := g }
+  step : ∀ t hp w s e, A w s → t = s.now → Refines hp s.pending →
+    (ex (t, hp, w) e).2.1 = (exec s e).now ∧ Refines (ex (t, hp, w) e).2.2.1 (exec s e).pending ∧
+    A (ex (t, hp, w) e).2.2.2 (exec s e) ∧ ((ex (t, hp, w) e).1 = .ok () ↔ (exec s e).raised.isSome = false)
+
+theorem gen_run_until_while_sim {ω : Type} {A : ω → Sim → Prop}
+    {ex : (Int × List Ev × ω) → Ev → (Except Py.Err Unit × (Int × List Ev × ω))} (hx : ExecSim A ex)
+    (self : GenFn.SimRun) (T : Int) (F : Nat) :
+    ∀ (s : Sim) (hp : List Ev) (w : ω), Refines hp s.pending → A w s → s.raised = none →
+      match runUntil F s T with
+      | none => (GenFn.run_until.while1 F self T ω ex w s.now hp).1 = .error Py.Err.Fuel
+      | some s' =>
+        ((GenFn.run_until.while1 F self T ω ex w s.now hp).1 = .ok () ↔ s'.raised.isSome = false) ∧
+        (GenFn.run_until.while1 F self T ω ex w s.now hp).2.1 = s'.now ∧
+        Refines (GenFn.run_until.while1 F self T ω ex w s.now hp).2.2.1 s'.pending ∧
+        A (GenFn.run_until.while1 F self T ω ex w s.now hp).2.2.2 s' := by
+  induction F with
+  | zero =>
+    intro s hp w r ha h0
+    simp [runUntil, GenFn.run_until.while1]
+  | succ F ih =>
+    intro s hp w r ha h0
+    rw [gen_run_until_while_succ]
+    have hr := refines_popLive r
+    rw [← r.perm.length_eq] at hr
+    cases hpl : popLive s.pending with
+    | none =>
+      simp only [hpl] at hr
+      rw [runUntil_none hpl, hr]
+      exact ⟨by simp [h0], rfl, refines_nil, hx.frame _ _ _ _ _ ha⟩
+    | some p =>
+      obtain ⟨e, rest⟩ := p
+      simp only [hpl] at hr
+      obtain ⟨hp', hq, r'⟩ := hr
+      rw [hq]
+      dsimp only
+      obtain ⟨_, hlt, hs⟩ := popLive_spec r.sorted hpl
+      by_cases hT : e.time ≤ T
+      · have hst := hx.step e.time hp' w (popped s e rest) e (hx.frame _ _ _ _ _ ha) rfl r'
+        obtain ⟨h1, h2, h3, h4⟩ := hst
+        rw [if_pos hT]
+        cases hraise : (exec (popped s e rest) e).raised.isSome with
+        | true =>
+          rw [runUntil_due_raised hpl hT hraise]
+          revert h1 h2 h3 h4
+          generalize ex (e.time, hp', w) e = res
+          obtain ⟨v, st⟩ := res
+          intro h1 h2 h3 h4
+          cases v with
+          | ok u => simp [hraise] at h4
+          | error err => exact ⟨by simp [hraise], h1, h2, h3⟩
+        | false =>
+          rw [runUntil_due hpl hT hraise]
+          have h0' : (exec (popped s e rest) e).raised = none := by
+            cases hh : (exec (popped s e rest) e).raised with
+            | none => rfl
+            | some x => simp [hh] at hraise
+          have := ih (exec (popped s e rest) e) (ex (e.time, hp', w) e).2.2.1 (ex (e.time, hp', w) e).2.2.2 h2 h3 h0'
+          rw [← h1] at this
+          revert this h4
+          generalize ex (e.time, hp', w) e = res
+          obtain ⟨v, st⟩ := res
+          intro h4 this
+          cases v with
+          | ok u => exact this
+          | error err => simp [hraise] at h4
+      · rw [runUntil_late hpl hT, if_neg hT]
+        have hA : A w (popped s e rest) := hx.frame w s e.time rest (s.gone ++ (skipped s.pending).map (·.id)) ha
+        refine ⟨by simp [popped, h0], by simp, ?_, hx.frame w (popped s e rest) T (insert e rest) (popped s e rest).gone hA⟩
+        show Refines (heappush Ev.lt hp' e) (insert e rest)
+        rw [insert_of_all_lt e rest hlt]
+        exact ⟨heappush_heap ev_swo r'.heap e, (heappush_perm Ev.lt hp' e).trans (List.Perm.cons e r'.perm),
+          List.pairwise_cons.mpr ⟨hlt, hs⟩⟩
+
+/-- **`Simulator.run_until` as generated = the model's `runUntil`**, under the guard of the code (`self.model is not None`), for
+    every heap array that holds the model's sorted pending list, every callback that does on (clock, array, world) what the
+    model's `exec` does (`ExecSim`), and EVERY fuel `F` — the fuel of the generated `while True` is the model's own fuel, one unit
+    per popped event (the model has no other termination measure: callables may schedule for ever), the inner `pop_event` loop
+    runs on its own measure: out of fuel together (`Py.Err.Fuel` ⇔ `none`); otherwise the run returns normally iff the model's
+    run has no exception pending, an exception of a callable comes out of `run_until` with the state the model has, and
+    clock, event list and world correspond. -/
+theorem C14_gen_run_until_eq_model {ω : Type} {A : ω → Sim → Prop}
+    {ex : (Int × List Ev × ω) → Ev → (Except Py.Err Unit × (Int × List Ev × ω))} (hx : ExecSim A ex)
+    (F : Nat) (s : Sim) (T : Int) (hp : List Ev) (w : ω) (m : Int)
+    (r : Refines hp s.pending) (ha : A w s) (h0 : s.raised = none) :
+    match runUntil F s T with
+    | none => (GenFn.run_until ⟨s.now, some m, ⟨hp⟩⟩ T ω ex w F).1 = .error Py.Err.Fuel
+    | some s' =>
+      ((GenFn.run_until ⟨s.now, some m, ⟨hp⟩⟩ T ω ex w F).1 = .ok () ↔ s'.raised.isSome = false) ∧
+      (GenFn.run_until ⟨s.now, some m, ⟨hp⟩⟩ T ω ex w F).2.1 = s'.now ∧
+      Refines (GenFn.run_until ⟨s.now, some m, ⟨hp⟩⟩ T ω ex w F).2.2.1 s'.pending ∧
+      A (GenFn.run_until ⟨s.now, some m, ⟨hp⟩⟩ T ω ex w F).2.2.2 s' := by
+  have h := gen_run_until_while_sim hx ⟨s.now, some m, ⟨hp⟩⟩ T F s hp w r ha h0
+  have e : GenFn.run_until ⟨s.now, some m, ⟨hp⟩⟩ T ω ex w F =
+      GenFn.run_until.while1 F ⟨s.now, some m, ⟨hp⟩⟩ T ω ex w s.now hp := by
+    simp [GenFn.run_until]
+  rw [e]
+  exact h
+
+/-- the guard: without a model `run_until` raises `Exception` before it touches the clock or the event list -/
+theorem C14_gen_run_until_guard {ω : Type} (ex : (Int × List Ev × ω) → Ev → (Except Py.Err Unit × (Int × List Ev × ω)))
+    (t T : Int) (hp : List Ev) (w : ω) (F : Nat) :
+    GenFn.run_until ⟨t, none, ⟨hp⟩⟩ T ω ex w F = (.error Py.Err.Exception, t, hp, w) := by
+  simp [GenFn.run_until]
+
+/-- **C15's chunking clause about the code-derived text**: the generated `run_until` to `T₁` followed by the generated
+    `run_until` to `T₂ ≥ T₁` from the state the first call left (no exception in between) ends where ONE generated
+    `run_until` to `T₂` ends — same outcome, same clock, the same events on the event list (as a multiset: the heap arrays may
+    differ in layout), worlds that stand for one and the same model state. -/
+theorem C15_chunking_generated {ω : Type} {A : ω → Sim → Prop}
+    {ex : (Int × List Ev × ω) → Ev → (Except Py.Err Unit × (Int × List Ev × ω))} (hx : ExecSim A ex)
+    (F₁ F₂ : Nat) (s s₁ s₂ : Sim) (T₁ T₂ : Int) (hT : T₁ ≤ T₂) (hw : WF s) (hp : List Ev) (w : ω) (m : Int)
+    (r : Refines hp s.pending) (ha : A w s) (h0 : s.raised = none)
+    (h₁ : runUntil F₁ s T₁ = some s₁) (hn : s₁.raised = none) (h₂ : runUntil F₂ s₁ T₂ = some s₂) :
+    ∃ F,
+      ((GenFn.run_until ⟨s.now, some m, ⟨hp⟩⟩ T₂ ω ex w F).1 = .ok () ↔
+        (GenFn.run_until ⟨(GenFn.run_until ⟨s.now, some m, ⟨hp⟩⟩ T₁ ω ex w F₁).2.1, some m,
+          ⟨(GenFn.run_until ⟨s.now, some m, ⟨hp⟩⟩ T₁ ω ex w F₁).2.2.1⟩⟩ T₂ ω ex
+          (GenFn.run_until ⟨s.now, some m, ⟨hp⟩⟩ T₁ ω ex w F₁).2.2.2 F₂).1 = .ok ()) ∧
+      (GenFn.run_until ⟨s.now, some m, ⟨hp⟩⟩ T₂ ω ex w F).2.1 =
+        (GenFn.run_until ⟨(GenFn.run_until ⟨s.now, some m, ⟨hp⟩⟩ T₁ ω ex w F₁).2.1, some m,
+          ⟨(GenFn.run_until ⟨s.now, some m, ⟨hp⟩⟩ T₁ ω ex w F₁).2.2.1⟩⟩ T₂ ω ex
+          (GenFn.run_until ⟨s.now, some m, ⟨hp⟩⟩ T₁ ω ex w F₁).2.2.2 F₂).2.1 ∧
+      (GenFn.run_until ⟨s.now, some m, ⟨hp⟩⟩ T₂ ω ex w F).2.2.1.Perm
+        (GenFn.run_until ⟨(GenFn.run_until ⟨s.now, some m, ⟨hp⟩⟩ T₁ ω ex w F₁).2.1, some m,
+          ⟨(GenFn.run_until ⟨s.now, some m, ⟨hp⟩⟩ T₁ ω ex w F₁).2.2.1⟩⟩ T₂ ω ex
+          (GenFn.run_until ⟨s.now, some m, ⟨hp⟩⟩ T₁ ω ex w F₁).2.2.2 F₂).2.2.1 ∧
+      A (GenFn.run_until ⟨s.now, some m, ⟨hp⟩⟩ T₂ ω ex w F).2.2.2 s₂ ∧
+      A (GenFn.run_until ⟨(GenFn.run_until ⟨s.now, some m, ⟨hp⟩⟩ T₁ ω ex w F₁).2.1, some m,
+          ⟨(GenFn.run_until ⟨s.now, some m, ⟨hp⟩⟩ T₁ ω ex w F₁).2.2.1⟩⟩ T₂ ω ex
+          (GenFn.run_until ⟨s.now, some m, ⟨hp⟩⟩ T₁ ω ex w F₁).2.2.2 F₂).2.2.2 s₂ := by
+  have e1 := C14_gen_run_until_eq_model hx F₁ s T₁ hp w m r ha h0
+  rw [h₁] at e1
+  obtain ⟨_, b1, c1, d1⟩ := e1
+  have e2 := C14_gen_run_until_eq_model hx F₂ s₁ T₂ _ _ m c1 d1 hn
+  rw [h₂, ← b1] at e2
+  obtain ⟨a2, b2, c2, d2⟩ := e2
+  obtain ⟨F, hF⟩ := chunk_until hT hw h₁ hn h₂
+  have e3 := C14_gen_run_until_eq_model hx F s T₂ hp w m r ha h0
+  rw [hF] at e3
+  obtain ⟨a3, b3, c3, d3⟩ := e3
+  exact ⟨F, a3.trans a2.symm, b3.trans b2.symm, c3.perm.trans c2.perm.symm, d3, d2⟩
+
+/-! #### C14's execution clause over the generated loop, with the callback that only records what is executed -/
+
+/-- the callable that does nothing but record the event it is executed for (world = the record) -/
+def exLog (st : Int × List Ev × List Ev) (e : Ev) : Except Py.Err Unit × (Int × List Ev × List Ev) :=
+  (.ok (), (st.1, st.2.1, st.2.2 ++ [e]))
+
+theorem popLive_none_filter {l : List Ev} (h : popLive l = none) : l.filter Ev.live = [] := by
+  induction l with
+  | nil => rfl
+  | cons x xs ih =>
+    unfold popLive at h
+    by_cases hc : x.cancelled = true
+    · simp only [hc, if_true] at h
+      simp [Ev.live, hc, ih h]
+    · simp [hc] at h
+
+theorem popLive_some_filter {l : List Ev} {e : Ev} {rest : List Ev} (h : popLive l = some (e, rest)) :
+    l.filter Ev.live = e :: rest.filter Ev.live ∧ rest.length < l.length := by
+  induction l with
+  | nil => simp [popLive] at h
+  | cons x xs ih =>
+    unfold popLive at h
+    by_cases hc : x.cancelled = true
+    · simp only [hc, if_true] at h
+      obtain ⟨a, b⟩ := ih h
+      exact ⟨by simp [Ev.live, hc, a], by simp; omega⟩
+    · simp [hc] at h
+      obtain ⟨rfl, rfl⟩ := h
+      exact ⟨by simp [Ev.live, hc], by simp⟩
+
+theorem gen_run_until_log (self : GenFn.SimRun) (T : Int) (F : Nat) :
+    ∀ (hp s : List Ev) (t : Int) (log : List Ev), Refines hp s → s.length < F →
+      (GenFn.run_until.while1 F self T (List Ev) exLog log t hp).1 = .ok () ∧
+      (GenFn.run_until.while1 F self T (List Ev) exLog log t hp).2.1 = T ∧
+      (GenFn.run_until.while1 F self T (List Ev) exLog log t hp).2.2.2 =
+        log ++ (s.filter Ev.live).takeWhile (fun e => decide (e.time ≤ T)) := by
+  induction F with
+  | zero => intro _ s _ _ _ h; omega
+  | succ F ih =>
+    intro hp s t log r hF
+    rw [gen_run_until_while_succ]
+    have hr := refines_popLive r
+    rw [← r.perm.length_eq] at hr
+    cases hpl : popLive s with
+    | none =>
+      simp only [hpl] at hr
+      rw [hr]
+      simp [popLive_none_filter hpl]
+    | some p =>
+      obtain ⟨e, rest⟩ := p
+      simp only [hpl] at hr
+      obtain ⟨hp', hq, r'⟩ := hr
+      obtain ⟨hf, hl⟩ := popLive_some_filter hpl
+      rw [hq, hf]
+      by_cases hT : e.time ≤ T
+      · obtain ⟨a, b, c⟩ := ih hp' rest e.time (log ++ [e]) r' (by omega)
+        simp [hT, exLog, List.takeWhile_cons, a, b, c]
+      · simp [hT, List.takeWhile_cons]
+
+/-- **C14's execution clause about the code-derived text**: on an event list holding the events `s` (sorted by the code's
+    `__lt__`: (time, priority, id)), with more fuel than events, the generated `run_until(T)` hands to `event.execute()` exactly
+    the live events with time ≤ T — each once, in (time, priority, id) order (the record is a strictly increasing list) — never a
+    cancelled or a later one, returns normally and leaves the clock at `T`. -/
+theorem C14_run_until_generated (hp s : List Ev) (r : Refines hp s) (t T m : Int) (F : Nat) (hF : s.length < F) :
+    (GenFn.run_until ⟨t, some m, ⟨hp⟩⟩ T (List Ev) exLog [] F).1 = .ok () ∧
+    (GenFn.run_until ⟨t, some m, ⟨hp⟩⟩ T (List Ev) exLog [] F).2.1 = T ∧
+    (GenFn.run_until ⟨t, some m, ⟨hp⟩⟩ T (List Ev) exLog [] F).2.2.2 =
+      (s.filter fun e => !e.cancelled && decide (e.time ≤ T)) ∧
+    (GenFn.run_until ⟨t, some m, ⟨hp⟩⟩ T (List Ev) exLog [] F).2.2.2.Pairwise (fun a b => GenFn.lt a b = true) := by
+  have e : GenFn.run_until ⟨t, some m, ⟨hp⟩⟩ T (List Ev) exLog [] F =
+      GenFn.run_until.while1 F ⟨t, some m, ⟨hp⟩⟩ T (List Ev) exLog [] t hp := by
+    simp [GenFn.run_until]
+  obtain ⟨a, b, c⟩ := gen_run_until_log ⟨t, some m, ⟨hp⟩⟩ T F hp s t [] r hF
+  rw [e, gen_lt_eq]
+  have hsub : ((s.filter Ev.live).takeWhile (fun e => decide (e.time ≤ T))).Sublist s :=
+    (List.takeWhile_sublist _).trans List.filter_sublist
+  refine ⟨a, b, ?_, by rw [c]; exact r.sorted.sublist (by simpa using hsub)⟩
+  rw [c, List.nil_append]
+  -- in a list sorted by time first, the live events up to T are a prefix of the live events
+  have hs : (s.filter Ev.live).Pairwise (fun a b => a.lt b = true) := r.sorted.sublist List.filter_sublist
+  have : ∀ l : List Ev, l.Pairwise (fun a b => a.lt b = true) →
+      l.takeWhile (fun e => decide (e.time ≤ T)) = l.filter (fun e => decide (e.time ≤ T)) := by
+    intro l hl
+    induction l with
+    | nil => rfl
+    | cons x xs ih =>
+      obtain ⟨hx, hxs⟩ := List.pairwise_cons.mp hl
+      by_cases hT : x.time ≤ T
+      · simp [List.takeWhile_cons, hT, ih hxs]
+      · have : ∀ y ∈ xs, ¬ y.time ≤ T := fun y hy => by
+          have := Ev.time_le_of_lt (hx y hy); omega
+        simp [List.takeWhile_cons, hT]
+        exact fun y hy => by have := this y hy; omega
+  rw [this _ hs, List.filter_filter]
+  congr 1
+  funext x
+  simp [Ev.live, Bool.and_comm]
+
 end Mesa.Devs
